@@ -30,6 +30,8 @@ def jobs(tier, seed):
         out.append({'entry': 'h_load', 'harness': 'h_load.cpp', 'name': name, 'cfg': {'gens': 1, 'dump': 1, 'obsfiles': 0}, 'family': 'file', 'truncate': cut,
                     'shape': {'P': 2, 'C': 0, 'sub': 0, 'F': 3}, 'lay': {}, 'opts': {'analog': 'empty', 'symbolic_meta': False}})
     out.append({'entry': 'h_c19_rates', 'harness': 'h_c01.cpp', 'name': 'rates', 'family': 'rates', 'cfg': {}})
+    # cross-level kernel: two free POINT:RATE values in [1, 1e6] set one after the other, header rate observed after each
+    out.append({'entry': 'h_c19_rates2', 'harness': 'h_c01.cpp', 'name': 'two-rates', 'family': 'api', 'first': 1, 'cfg': {}})
     return out
 
 def run_rates(engine, job):
